@@ -52,6 +52,10 @@ pub const FAMILIES: &[&str] = &[
     "Valid:MetaFields",
     "Valid:NonNullDefaultIntoNonNull",
     "Valid:ExclusiveObjectsDifferentFields",
+    "SharedFragment:UndefinedVariableInOneOperation",
+    "Valid:SharedFragmentVariables",
+    "AbstractParent:ConflictWithOneObject",
+    "Valid:AbstractParentSameField",
 ];
 
 /// The rule a family aims at (`None` for validity-preserving families).
@@ -59,7 +63,11 @@ pub fn intended(family: &str) -> Option<&'static str> {
     if family.starts_with("Valid:") {
         return None;
     }
-    FAMILIES.iter().find(|f| **f == family).copied()
+    match family {
+        "SharedFragment:UndefinedVariableInOneOperation" => Some(R::NO_UNDEFINED_VARIABLES),
+        "AbstractParent:ConflictWithOneObject" => Some(R::OVERLAPPING_FIELDS),
+        _ => FAMILIES.iter().find(|f| **f == family).copied(),
+    }
 }
 
 /// Quota-driven choice of the next family: the least-served families first.
@@ -1295,6 +1303,10 @@ fn apply(family: &str, rng: &mut Rng, flat: &FlatSchema, doc: &mut Doc) -> Optio
             add_var(doc, site.def, var(&v, TyRef::named("Boolean"), Some(Val::Bool(rng.bool()))));
             add_conditional(rng, doc, &site, Val::Var(v));
         }
+        "SharedFragment:UndefinedVariableInOneOperation" => shared_fragment_variable(rng, flat, doc, false)?,
+        "Valid:SharedFragmentVariables" => shared_fragment_variable(rng, flat, doc, true)?,
+        "AbstractParent:ConflictWithOneObject" => abstract_parent_overlap(rng, flat, doc, false)?,
+        "Valid:AbstractParentSameField" => abstract_parent_overlap(rng, flat, doc, true)?,
         "Valid:ExclusiveObjectsDifferentFields" => {
             let (site, o1, g1, o2, g2) = exclusive_pair(rng, flat, doc, true)?;
             let key = fresh(rng, "ze");
@@ -1469,4 +1481,132 @@ fn overlapping(rng: &mut Rng, flat: &FlatSchema, doc: &mut Doc) -> Option<()> {
         }
     }
     None
+}
+
+/// Two or three new query operations that spread one fragment using a variable (directly or through
+/// a nested fragment; in a directive argument or a field argument). `valid`: every operation
+/// declares the variable; otherwise one of them — at a random position — does not (it may declare
+/// and use another variable, or none at all).
+fn shared_fragment_variable(rng: &mut Rng, flat: &FlatSchema, doc: &mut Doc, valid: bool) -> Option<()> {
+    let root = flat.root("query")?.to_string();
+    name_all_ops(doc);
+    let v = fresh(rng, "zsv");
+    let frag = fresh(rng, "ZSF");
+    // where the variable is used
+    let use_sel = {
+        let with_bool_arg = flat.ty(&root)?.fields.iter().find(|f| {
+            f.args.iter().filter(|a| a.ty.is_non_null() && a.default.is_none()).count() == 0
+                && f.args.iter().any(|a| a.ty.nullable() == TyRef::named("Boolean") && a.ty.list_depth() == 0)
+                && flat.is_leaf(f.ty.inner_name())
+        });
+        match with_bool_arg {
+            Some(f) if rng.bool() => {
+                let a = f.args.iter().find(|a| a.ty.nullable() == TyRef::named("Boolean")).unwrap();
+                Sel::Field { alias: Some(fresh(rng, "zsa")), name: f.name.clone(), args: vec![(a.name.clone(), Val::Var(v.clone()))], dirs: vec![], sels: vec![] }
+            }
+            _ => Sel::Field {
+                alias: Some(fresh(rng, "zst")),
+                name: "__typename".into(),
+                args: vec![],
+                dirs: vec![dir(if rng.bool() { "include" } else { "skip" }, vec![("if", Val::Var(v.clone()))])],
+                sels: vec![],
+            },
+        }
+    };
+    if rng.bool() {
+        let inner = fresh(rng, "ZSG");
+        doc.defs.push(Def::Frag(FragDef { name: frag.clone(), on: root.clone(), dirs: vec![], sels: vec![typename(), Sel::Spread { name: inner.clone(), dirs: vec![] }] }));
+        doc.defs.push(Def::Frag(FragDef { name: inner, on: root.clone(), dirs: vec![], sels: vec![use_sel] }));
+    } else {
+        doc.defs.push(Def::Frag(FragDef { name: frag.clone(), on: root.clone(), dirs: vec![], sels: vec![use_sel] }));
+    }
+    let n = rng.range(2, 3);
+    let odd = rng.below(n);
+    let mut ops = Vec::new();
+    for i in 0..n {
+        let mut vars = Vec::new();
+        let mut sels = vec![Sel::Spread { name: frag.clone(), dirs: vec![] }];
+        if valid || i != odd {
+            vars.push(var(&v, TyRef::named("Boolean").non_null(), None));
+        } else if rng.bool() {
+            let other = fresh(rng, "zso");
+            vars.push(var(&other, TyRef::named("Boolean").non_null(), None));
+            sels.push(Sel::Field { alias: Some(fresh(rng, "zsu")), name: "__typename".into(), args: vec![], dirs: vec![dir("include", vec![("if", Val::Var(other))])], sels: vec![] });
+        }
+        if rng.bool() {
+            sels.insert(0, typename());
+        }
+        ops.push(Def::Op(OpDef { kind: "query".into(), name: Some(fresh(rng, "ZSQ")), vars, dirs: vec![], sels, shorthand: false }));
+    }
+    // new operations before or after the existing definitions
+    if rng.bool() {
+        doc.defs.extend(ops);
+    } else {
+        for (k, o) in ops.into_iter().enumerate() {
+            doc.defs.insert(k, o);
+        }
+    }
+    Some(())
+}
+
+/// Under a site whose parent is an interface `P` with two or more possible object types: one
+/// response key selected under `... on O1`, `... on O2` (objects) and `... on P`, in random order.
+/// The object-typed selections are leaf fields of one type (so shapes agree); the selection on `P`
+/// is an interface field `g`. `valid`: all three select `g`. Otherwise exactly one object selects a
+/// different field of the same type — legal against the other object, a conflict against `P`.
+fn abstract_parent_overlap(rng: &mut Rng, flat: &FlatSchema, doc: &mut Doc, valid: bool) -> Option<()> {
+    let ss = op_sites(flat, doc);
+    let mut c: Vec<(Site, String, String, String, FieldDef, FieldDef)> = Vec::new();
+    let simple = |f: &FieldDef| flat.is_leaf(f.ty.inner_name()) && f.args.is_empty();
+    for s in &ss {
+        let Some(p) = s.parent.clone() else { continue };
+        if flat.kind(&p) != Some(Kind::Interface) {
+            continue;
+        }
+        let objs = flat.possible_types(&p);
+        if objs.len() < 2 {
+            continue;
+        }
+        let Some(pt) = flat.ty(&p) else { continue };
+        for g in pt.fields.iter().filter(|f| simple(f)) {
+            for o in &objs {
+                let Some(ot) = flat.ty(o) else { continue };
+                // the object's own `g` must have exactly the interface's type, or shapes could differ
+                if ot.fields.iter().find(|f| f.name == g.name).map(|f| f.ty != g.ty || !f.args.is_empty()).unwrap_or(true) {
+                    continue;
+                }
+                for h in ot.fields.iter().filter(|f| simple(f) && f.name != g.name && f.ty == g.ty) {
+                    for o1 in objs.iter().filter(|x| *x != o) {
+                        let ok1 = flat.ty(o1).and_then(|t| t.fields.iter().find(|f| f.name == g.name)).map(|f| f.ty == g.ty && f.args.is_empty()).unwrap_or(false);
+                        if ok1 {
+                            c.push((s.clone(), p.clone(), o1.clone(), o.clone(), g.clone(), h.clone()));
+                        }
+                    }
+                }
+            }
+        }
+    }
+    if c.is_empty() {
+        return None;
+    }
+    let (site, p, o1, o2, g, h) = c[rng.below(c.len())].clone();
+    let key = fresh(rng, "zab");
+    let mut parts = vec![
+        Sel::Inline { on: Some(o1), dirs: vec![], sels: vec![select_leaf(&g, &key)] },
+        Sel::Inline { on: Some(o2), dirs: vec![], sels: vec![select_leaf(if valid { &g } else { &h }, &key)] },
+        Sel::Inline { on: Some(p), dirs: vec![], sels: vec![select_leaf(&g, &key)] },
+    ];
+    rng.shuffle(&mut parts);
+    if rng.chance(1, 4) {
+        // the abstract selection directly in the parent selection set
+        for x in parts.iter_mut() {
+            if let Sel::Inline { on, .. } = x {
+                if on.as_deref().map(|t| flat.kind(t) == Some(Kind::Interface)).unwrap_or(false) && rng.bool() {
+                    *on = None;
+                }
+            }
+        }
+    }
+    list_mut(doc, &site).extend(parts);
+    Some(())
 }
